@@ -1,5 +1,50 @@
-import SemVerif.Spec.Preds
-import SemVerif.Inventory
-/-! # Property C01 — theorems (under construction) -/
+import SemVerif.Props.C14
+/-!
+# Property C01 — an accepted program is well-formed
+
+`C01_enforced`: if the run leaves the error list empty, the reference rule checker finds no
+*enforced* violation.  `C01`: every failing instance the output predicate reports on the model's
+result is an instance of one of the four recorded findings (F6a, F8, F9, F10) — the rule instances
+the current analyzer does not enforce and that could not be repaired under the constraints.
+The full-strength statement (accepted ⇒ `refCheck p = []`) is false on the current tree; the four
+witnesses are in the corpus (`corpus/C01.txt`) and replayed on the implementation on every run.
+Corollaries of T1 (Props/C14).
+-/
 namespace SemVerif
+
+theorem C01_enforced (p : Program) (hok : LoopOKB p = true) (hacc : (run p).errors = []) : refCheckEnf p = [] := by
+  rcases T1 p hok with ⟨_, hv⟩ | ⟨e, rest, v, he, _, _⟩
+  · unfold refCheckEnf; unfold firstEnf at hv
+    cases hf : (refCheck p).filter (·.enforced) with
+    | nil => rfl
+    | cons x xs => rw [hf] at hv; simp at hv
+  · rw [hacc] at he; cases he
+
+theorem violTag_unenforced (v : Viol) (h : v.enforced = false) : violTag v ∈ c01Known := by
+  unfold violTag c01Known
+  simp only [h, Bool.false_eq_true, if_false]
+  split <;> simp
+
+/-- **C01** — on the model's result the only failing instances are the recorded findings -/
+theorem C01 (p : Program) (hok : LoopOKB p = true) : ∀ t ∈ P_C01 p (run p), t ∈ c01Known := by
+  intro t ht
+  unfold P_C01 at ht
+  split at ht
+  · rename_i hacc
+    have herr : (run p).errors = [] := by
+      unfold Result.accepted at hacc
+      simp only [Bool.and_eq_true, List.isEmpty_iff] at hacc
+      exact hacc.2
+    have henf := C01_enforced p hok herr
+    have hmem : t ∈ (refCheck p).map violTag := List.mem_eraseDups.mp ht
+    rw [List.mem_map] at hmem
+    obtain ⟨v, hv, rfl⟩ := hmem
+    apply violTag_unenforced
+    cases hve : v.enforced with
+    | false => rfl
+    | true =>
+      have : v ∈ refCheckEnf p := by unfold refCheckEnf; exact List.mem_filter.mpr ⟨hv, hve⟩
+      rw [henf] at this; cases this
+  · cases ht
+
 end SemVerif
